@@ -105,6 +105,7 @@ namespace sim
         uint64_t send_calls  = 0;
         int accept_failures  = 0;               // the next n accept4() calls of gated threads fail with EMFILE
         bool park_threads_at_start = false;     // captured threads wait for the controller before running their body
+        int connect_failures = 0;               // the next n connect() calls of gated threads fail at once (ENETUNREACH)
         bool hold_spares_send = false;          // a held descriptor blocks sendfile() only (header goes out, file body stalls)
         std::set<int> blocked;                  // held descriptors that have answered would-block since they were held
         std::map<int, int> fail_next_write;     // descriptor -> errno for its next send()/sendfile()
@@ -185,6 +186,23 @@ int pthread_mutex_lock(pthread_mutex_t* m)
     if (ng_active() && ng_self() >= 0 && (ng_is_fine() || !ng_mutex_free(m)))
         ng_park_at(1, m);
     return fn(m);
+}
+
+// environment fault: the network is unreachable for the next n connection attempts of the code under test
+int connect(int fd, const struct sockaddr* addr, socklen_t len)
+{
+    static auto fn = sim::real<int (*)(int, const struct sockaddr*, socklen_t)>("connect");
+    if (ng_self() >= 0 && ng_active())
+    {
+        sim::TsanIgnore ign;
+        if (sim::S().connect_failures > 0)
+        {
+            --sim::S().connect_failures;
+            errno = ENETUNREACH;
+            return -1;
+        }
+    }
+    return fn(fd, addr, len);
 }
 
 // environment fault: the process is out of descriptors for the next n accepts (the connection stays in the backlog)
